@@ -2,9 +2,11 @@ package main
 
 import (
 	"encoding/json"
+	"math"
 	"math/rand"
 	"sort"
 	"strconv"
+	"sync"
 
 	"github.com/Trisia/randomness"
 	"github.com/Trisia/randomness/detect"
@@ -162,6 +164,23 @@ func thresholdQTrace(job []byte, out *Out) error {
 				qs[i] = (float64(rng.Intn(3)) + rng.Float64()) / 10
 			}
 		}
+		if c < 27 {
+			// the float64 neighbours of every interior class boundary: one ulp below, on, one ulp above; the other 45 values
+			// put 6, 3, 6, 3, ... values into the classes so that neighbouring classes hold different counts and the
+			// statistic stays moderate (a misplaced value then changes the result visibly)
+			e := edges[1+c/3]
+			sp := []float64{math.Nextafter(e, 0), e, math.Nextafter(e, 2)}[c%3]
+			qs = qs[:0]
+			for i := 0; i < 5; i++ {
+				qs = append(qs, sp)
+			}
+			for b := 0; b < 10; b++ {
+				for k := 0; k < 6-3*(b%2); k++ {
+					qs = append(qs, (float64(b)+0.2+0.6*rng.Float64())/10)
+				}
+			}
+			n = len(qs)
+		}
 		ss := make([]string, n)
 		for i, q := range qs {
 			ss[i] = F(q)
@@ -196,10 +215,18 @@ func igamcTrace(job []byte, out *Out) error {
 			A2 int      `json:"a2"`
 			Xs []string `json:"xs"`
 		} `json:"chains"`
+		Stream bool `json:"stream"` // emit each chain as soon as it is done, no concurrent pass
 	}
 	if err := json.Unmarshal(job, &j); err != nil {
 		return err
 	}
+	type chainRes struct {
+		ev   map[string]interface{}
+		a    float64
+		xs   []float64
+		bits []uint64
+	}
+	var all []*chainRes
 	for _, c := range j.Chains {
 		xs, err := parseList(c.Xs)
 		if err != nil {
@@ -209,7 +236,8 @@ func igamcTrace(job []byte, out *Out) error {
 		a := float64(c.A2) / 2
 		sx := make([]string, len(xs))
 		sq := make([]string, len(xs))
-		ev := map[string]interface{}{"ev": "igamc", "a2": c.A2}
+		cr := &chainRes{a: a, xs: xs, bits: make([]uint64, len(xs))}
+		ev := map[string]interface{}{"ev": "igamc", "a2": c.A2, "nondet": false}
 		func() {
 			defer func() {
 				if p := recover(); p != nil {
@@ -218,11 +246,62 @@ func igamcTrace(job []byte, out *Out) error {
 			}()
 			for i, x := range xs {
 				sx[i] = F(x)
-				sq[i] = F(randomness.Igamc(a, x))
+				q := randomness.Igamc(a, x)
+				cr.bits[i] = math.Float64bits(q)
+				sq[i] = F(q)
 			}
 		}()
 		ev["xs"], ev["qs"] = sx, sq
-		out.Emit(ev)
+		cr.ev = ev
+		all = append(all, cr)
+		if j.Stream {
+			out.Emit(ev) // crash localisation: the first chain without an event is the one that killed the process
+		}
+	}
+	if !j.Stream {
+		// every chain again from sixteen goroutines at once, neighbouring goroutines working on different shapes (as the
+		// workers of the parallel workflows do): the value must not depend on what other callers are computing
+		var wg sync.WaitGroup
+		var mu sync.Mutex
+		next := 0
+		for g := 0; g < 16; g++ {
+			wg.Add(1)
+			go func() {
+				defer wg.Done()
+				for {
+					mu.Lock()
+					k := next
+					next++
+					mu.Unlock()
+					if k >= len(all) {
+						return
+					}
+					cr := all[k]
+					func() {
+						defer func() {
+							if p := recover(); p != nil {
+								mu.Lock()
+								cr.ev["nondet"] = true
+								mu.Unlock()
+							}
+						}()
+						for rep := 0; rep < 3; rep++ {
+							for i, x := range cr.xs {
+								if math.Float64bits(randomness.Igamc(cr.a, x)) != cr.bits[i] {
+									mu.Lock()
+									cr.ev["nondet"] = true
+									mu.Unlock()
+								}
+							}
+						}
+					}()
+				}
+			}()
+		}
+		wg.Wait()
+		for _, cr := range all {
+			out.Emit(cr.ev)
+		}
 	}
 	return nil
 }
